@@ -79,7 +79,10 @@
 //! and the file system without running destructors. `format` requires that nothing is mounted; it seeks the device
 //! to 0 (uncounted) first. After `panic`/`hang` everything is leaked and the rest of the history answers `dead`.
 //! A script that ends while mounted leaks the session silently. `readall` gives `hang` after 64 MiB.
-//! The `cfg` line of the trace reports `alloc=`/`unicode=` of the executing build, not of the script.
+//! The `cfg` line of the trace reports `alloc=`/`unicode=` of the executing build, not of the script; an optional
+//! seventh key `budget=<n>` sets the per-operation device-call budget (default 2 000 000; scenario `fault`: 200 000).
+//! Lines starting with `G ` (ground truth of the image builder) or `#` inside a history are echoed at their place and
+//! otherwise ignored; `#` lines between histories are passed through as well.
 use std::collections::HashMap;
 use std::io::Write as IoWrite;
 use std::panic::{catch_unwind, AssertUnwindSafe};
@@ -194,8 +197,10 @@ pub struct TreeNode {
 
 impl Session {
     pub fn new(h: &History) -> Session {
+        let dev = Dev::new(h.dev_size);
+        dev.with(|d| d.budget = h.cfg.budget);
         Session {
-            dev: Dev::new(h.dev_size),
+            dev,
             clock: Clock::new(h.cfg.clock),
             cfg: h.cfg.clone(),
             fs: None,
@@ -879,6 +884,7 @@ pub fn exec_history(h: &History, out: &mut dyn IoWrite) {
         writeln!(out, "{}", text).unwrap();
         match item {
             Item::Fault(k) => pending = Some(*k),
+            Item::Comment => {}
             Item::Bad { seq } => {
                 pending = None;
                 match seq {
@@ -916,8 +922,11 @@ pub fn exec_script(input: &mut dyn std::io::BufRead, out: &mut dyn IoWrite) {
         }
         if is_h {
             block.push(l);
-        } else if l == "E" || l.is_empty() || l.starts_with('#') {
-            // block end handled above; blank lines and comments are ignored
+        } else if l == "E" || l.is_empty() {
+            // block end handled above; blank lines are ignored
+        } else if l.starts_with('#') && block.is_empty() {
+            // comment between histories: passed through
+            writeln!(out, "{}", l).unwrap();
         } else if !block.is_empty() {
             block.push(l);
         } else {
